@@ -256,7 +256,10 @@ CHECKS = {
         'thorough': {'shards': 16, 'timeout': 5400},
     },
     'C20': {
-        'pkg': 'internal/client', 'test': 'TestVerif_C20', 'level': 'exploration',
+        'pkg': 'internal/client', 'test': 'TestVerif_C20',
+        'parts': [{'pkg': 'internal/client', 'test': 'TestVerif_C20'},
+                  {'pkg': 'internal/client', 'test': 'TestVerif_C20E2E', 'shards': 5, 'build_bins': {'VERIF_CKCLIENT': 'cmd/ck-client', 'VERIF_CKSERVER': 'cmd/ck-server'}}],
+        'level': 'exploration',
         'technique': 'runtime differential monitor: every generated configuration is parsed from a JSON file and from the semicolon-separated option string and the processed result is compared with an independent transcription of the README; malformed inputs with panics recovered; (thorough) strace of the real ck-client binary for the keep-alive parameters that reach the kernel',
         'level_text': 'All presence/absence combinations of the nine optional keys (512 combinations, cycled several times with representative values incl. NumConn <= 0, KeepAlive <= 0, mixed-case names, the aes-gcm synonym, CDN defaults, empty alternative names, values containing "=" with and without the plugin-host escape) '
                       'are written as JSON and as an option string: both must parse to the same RawConfig and ProcessRawConfig must yield the documented NumConn/singleplex, keep-alive period, stream timeout, encryption method, transport, browser, websocket URL, addresses and server-name list; '
